@@ -53,6 +53,8 @@ pub fn check_keys(c: &KeyCase) -> Verdict {
     let m = Model::rfc(c.hash);
     let kg = match c.seed_array_tail {
         Some(t) => libapi::keygen_seed_from_array(c.hash, &c.levels, &seed, t),
+        // the aux-producing way in, for a share of the cases (the keys must not depend on it)
+        None if seed[0] % 4 >= 2 => libapi::keygen(c.hash, &c.levels, &seed, Some(&mut libapi::AuxBuf::new(vec![0u8; if seed[0] % 4 == 2 { 2000 } else { 100 }]))),
         None => libapi::keygen(c.hash, &c.levels, &seed, None),
     };
     let (sk, pk) = match kg {
